@@ -1,36 +1,54 @@
 #!/bin/bash
-# C09: two executables (the old and the new framework both define igris::serialize / igris::deserialize
-# and cannot share a TU). Each framework's type family is instantiated in NP part TUs compiled in parallel.
+# C09: the old and the new framework both define igris::serialize / igris::deserialize and cannot share a TU
+# -> one executable each; and each is built by BOTH clang and gcc, because the library is header-only template
+# code whose behaviour can depend on the compiler (order of evaluation of function arguments: clang evaluates
+# left to right, gcc right to left). 4 executables = 4 runs. Each framework's type family is instantiated in NP
+# part TUs compiled in parallel, plus one EXTRAS TU (big containers, golden encodings, extra sub-checks).
 set -e
 . $MC/par.sh
 H=$VERIF/harness/c09
 NP_OLD=10
 NP_NEW=7
-# -ftrivial-auto-var-init=zero: a truncated decode leaves the unread part of a scalar (e.g. a 16-bit count)
-# uninitialised; the statement does not constrain the decoded value, zero makes the exploration deterministic.
-CF="-std=c++20 -O1 -gline-tables-only -fsanitize=address -fno-omit-frame-pointer -I$REPO -I$MC -I$H"
-CFN="$CF -ftrivial-auto-var-init=zero -enable-trivial-auto-var-init-zero-knowing-it-will-be-removed-from-clang"
+INC="-I$REPO -I$MC -I$H"
+# -ftrivial-auto-var-init=zero (new framework): a truncated decode leaves the unread part of a scalar (e.g. a
+# 16-bit count) uninitialised; the statement does not constrain the decoded value, zero makes the exploration
+# deterministic.
+CLANG_F="-std=c++20 -O1 -gline-tables-only -fsanitize=address -fno-omit-frame-pointer $INC"
+CLANG_N="$CLANG_F -ftrivial-auto-var-init=zero -enable-trivial-auto-var-init-zero-knowing-it-will-be-removed-from-clang"
+GCC_F="-std=c++20 -O1 -g1 -fsanitize=address -fno-omit-frame-pointer $INC"
+GCC_N="$GCC_F -ftrivial-auto-var-init=zero"
+
 par clang++ -std=c++17 -O2 -c -I$MC $MC/mc.cpp -o $BUILD/mc.o
-par clang++ $CF -c $H/c09_main.cpp -o $BUILD/main.o
-OLD_O=""
-for k in $(seq 0 $((NP_OLD - 1))); do
-  par clang++ $CF -DPART=$k -DNPARTS=$NP_OLD -c $H/c09_old.cpp -o $BUILD/old$k.o
-  OLD_O="$OLD_O $BUILD/old$k.o"
-done
-par clang++ $CF -DEXTRAS -DPART=$NP_OLD -DNPARTS=$NP_OLD -c $H/c09_old.cpp -o $BUILD/oldx.o
-OLD_O="$OLD_O $BUILD/oldx.o"
-NEW_O=""
-for k in $(seq 0 $((NP_NEW - 1))); do
-  par clang++ $CFN -DPART=$k -DNPARTS=$NP_NEW -c $H/c09_new.cpp -o $BUILD/new$k.o
-  NEW_O="$NEW_O $BUILD/new$k.o"
-done
-par clang++ $CFN -DEXTRAS -DPART=$NP_NEW -DNPARTS=$NP_NEW -c $H/c09_new.cpp -o $BUILD/newx.o
-NEW_O="$NEW_O $BUILD/newx.o"
+par clang++ $CLANG_F -c $H/c09_main.cpp -o $BUILD/clang_main.o
+par g++ $GCC_F -c $H/c09_main.cpp -o $BUILD/gcc_main.o
+
+# flavour <tag> <compiler> <flags old> <flags new>
+objs() { # <tag> <fw> <np>
+  local o=""
+  for k in $(seq 0 $(($3 - 1))); do o="$o $BUILD/$1_$2$k.o"; done
+  echo "$o $BUILD/$1_$2x.o"
+}
+compile() { # <tag> <compiler> <fw> <np> <flags...>
+  local tag=$1 cxx=$2 fw=$3 np=$4
+  shift 4
+  for k in $(seq 0 $((np - 1))); do
+    par $cxx "$@" -DPART=$k -DNPARTS=$np -c $H/c09_$fw.cpp -o $BUILD/${tag}_$fw$k.o
+  done
+  par $cxx "$@" -DEXTRAS -DPART=$np -DNPARTS=$np -c $H/c09_$fw.cpp -o $BUILD/${tag}_${fw}x.o
+}
+compile clang clang++ old $NP_OLD $CLANG_F -DC09_COMPILER='"clang"'
+compile clang clang++ new $NP_NEW $CLANG_N -DC09_COMPILER='"clang"'
+compile gcc g++ old $NP_OLD $GCC_F -DC09_COMPILER='"gcc"'
+compile gcc g++ new $NP_NEW $GCC_N -DC09_COMPILER='"gcc"'
 parwait
-par clang++ -fsanitize=address $OLD_O $BUILD/main.o $BUILD/mc.o -o $BUILD/c09_old
-par clang++ -fsanitize=address $NEW_O $BUILD/main.o $BUILD/mc.o -o $BUILD/c09_new
+par clang++ -fsanitize=address $(objs clang old $NP_OLD) $BUILD/clang_main.o $BUILD/mc.o -o $BUILD/c09_old
+par clang++ -fsanitize=address $(objs clang new $NP_NEW) $BUILD/clang_main.o $BUILD/mc.o -o $BUILD/c09_new
+par g++ -fsanitize=address $(objs gcc old $NP_OLD) $BUILD/gcc_main.o $BUILD/mc.o -o $BUILD/c09_old_gcc
+par g++ -fsanitize=address $(objs gcc new $NP_NEW) $BUILD/gcc_main.o $BUILD/mc.o -o $BUILD/c09_new_gcc
 parwait
 {
   echo "old $BUILD/c09_old"
   echo "new $BUILD/c09_new"
+  echo "old_gcc $BUILD/c09_old_gcc"
+  echo "new_gcc $BUILD/c09_new_gcc"
 } > $BUILD/runs.txt
